@@ -21,8 +21,11 @@ pub(crate) fn cleanup(module: &mut Module) {
     }
 
     let mut user_of = vec![Vec::<usize>::new(); module.function.len()];
+    // AR_COMPONENT / AR_PROTOTYPE_OF also names a function: which functions name this one, and which one does it name
+    let mut prototype_user_of = vec![Vec::<usize>::new(); module.function.len()];
+    let mut prototype_of = vec![None; module.function.len()];
     let mut delete_queue: Vec<usize> = vec![];
-    for (idx, func) in module.function.iter_mut().enumerate() {
+    for (idx, func) in module.function.iter().enumerate() {
         // build up a reverse reference list, i.e. for each function, which other functions list it as a sub-function
         if let Some(sub_function) = &func.sub_function {
             for name in &sub_function.identifier_list {
@@ -31,16 +34,41 @@ pub(crate) fn cleanup(module: &mut Module) {
                 }
             }
         }
-
-        if !used_functions.contains(&func.name) && is_function_empty(func) {
-            delete_queue.push(idx);
+        if let Some(protoidx) = func
+            .ar_component
+            .as_ref()
+            .and_then(|ar_component| ar_component.ar_prototype_of.as_ref())
+            .and_then(|ar_prototype_of| name2idx.get(&ar_prototype_of.name))
+        {
+            prototype_user_of[*protoidx].push(idx);
+            prototype_of[idx] = Some(*protoidx);
         }
     }
 
     let mut to_delete = vec![false; module.function.len()];
+    // a function can go if nothing outside refers to it, it refers to nothing,
+    // and every function that names it as its prototype goes as well
+    let can_delete = |func: &Function, idx: usize, to_delete: &[bool]| {
+        !used_functions.contains(&func.name)
+            && is_function_empty(func)
+            && prototype_user_of[idx].iter().all(|user| to_delete[*user])
+    };
+    for (idx, func) in module.function.iter().enumerate() {
+        if can_delete(func, idx, &to_delete) {
+            delete_queue.push(idx);
+        }
+    }
+
     while let Some(del_idx) = delete_queue.pop() {
         let name = module.function[del_idx].name.clone();
         to_delete[del_idx] = true;
+
+        // the prototype of the to-be-deleted function may have lost its last user
+        if let Some(protoidx) = prototype_of[del_idx] {
+            if !to_delete[protoidx] && can_delete(&module.function[protoidx], protoidx, &to_delete) {
+                delete_queue.push(protoidx);
+            }
+        }
 
         // for all functions that have a sub_function reference to this to-be-deleted function
         for refidx in &user_of[del_idx] {
@@ -53,9 +81,7 @@ pub(crate) fn cleanup(module: &mut Module) {
             }
             // if the function referencing the current function became empty after the
             // removal of the reference, then it is also queued for deletion
-            if !used_functions.contains(&module.function[*refidx].name)
-                && is_function_empty(&module.function[*refidx])
-            {
+            if can_delete(&module.function[*refidx], *refidx, &to_delete) {
                 delete_queue.push(*refidx);
             }
         }
